@@ -125,7 +125,7 @@ def c11(tier):
 
 def c16(tier):
     vlib.standard(
-        "C16", tier, "c16", ["Properties_C16.v", "Proofs_Cli.v", "Properties_System.v", "Proofs_System.v"],
+        "C16", tier, "c16", ["Properties_C16.v", "Proofs_Cli.v", "Properties_System.v", "Proofs_System.v", "Properties_Flags.v", "Properties_SystemCtx.v", "Proofs_SystemCtx.v"],
         assume=[
             "locations are absolute (begin with '/'): token.Position.String of files loaded by go/packages",
             "CommentGroup.Text() of go/ast is an input of the model (computed by the harness), not modelled",
@@ -148,7 +148,7 @@ def c15(tier):
 
 def c19(tier):
     vlib.standard(
-        "C19", tier, "c19", ["Properties_C19.v", "Proofs_Init.v"],
+        "C19", tier, "c19", ["Properties_C19.v", "Proofs_Init.v", "Properties_Recover.v", "Proofs_Recover.v"],
         assume=[
             "a configuration is abstracted to the outcome of each fallible step (flag parsing, package loading, version parsing, selection, constructors); which concrete flag values are invalid is decided by the real code and observed by the tie",
             "what go/packages hands over for broken packages is runtime behaviour: only the oracle (real binaries on broken packages) covers it",
@@ -190,7 +190,7 @@ def c18(tier):
 
 def c08(tier):
     vlib.standard(
-        "C08", tier, "c08", ["Properties_C08.v", "Proofs_Frontends.v", "Properties_System.v", "Proofs_System.v"],
+        "C08", tier, "c08", ["Properties_C08.v", "Proofs_Frontends.v", "Properties_System.v", "Proofs_System.v", "Properties_SystemCtx.v"],
         assume=[
             "a checker's diagnostics for a file do not depend on which package variant (p, p [p.test]) the file is analysed in; the differential run measures this",
             "the go/analysis driver prints each distinct (position, message) once (x/tools internal/checker)",
